@@ -27,6 +27,23 @@ fn ob_c17_parse_error_span(nchars: u8, c1: char, c2: char, location: usize) {
     assert!(fragment.is_char_boundary(n), "C17 parse error span ends on a character boundary");
 }
 
+// The parser's own adjacency rule for zero-or-more wildcards inside one concatenation (rule.rs only
+// checks the edges of branches): the look-ahead sets are re-extracted from `fn wildcard` on every run.
+//@extract parser_zom_lookahead
+
+//@ob C06.parse.zom-lookahead
+//@ props: C06
+//@ kind: complete
+//@ fns: src/token/parse.rs::parse::wildcard
+//@ pre: any character; the spellings of the zero-or-more wildcards and the `is_not("..")` look-ahead set of each zero-or-more arm, as written in fn wildcard on this run
+//@ post: every spelling of a zero-or-more wildcard is in the look-ahead exclusion set of EVERY zero-or-more arm: neither `**`-free pair (`*$`, `$*`, `$$`, `*` before a lone `*`) can be parsed as two adjacent zero-or-more wildcards (assumed: nom's `is_not` / `peek` / `terminated` semantics, T4)
+fn ob_c06_parse_zom_lookahead(c: char) {
+    vcover!(c == '$');
+    vcover!(c == '*');
+    assert!(ZOM_ARMS >= 2, "C06 both zero-or-more spellings have an arm");
+    assert!(!zom_tag_contains(c) || zom_every_arm_excludes(c), "C06 no zero-or-more wildcard may directly follow another one");
+}
+
 //@ob C17.parse.canary
 //@ props: C17
 //@ kind: canary
